@@ -200,6 +200,10 @@ def one_run(ctx, repo, cname, mod, conf, L, csbk_count):
             got.extend(list(d.items) if isinstance(d, ABits) else I.frame_bits(d) if hasattr(I, "frame_bits") else _bytes_bits(d))
         want = list(payload.items) + [F(0, 0)] * (8 * poc)
         if I.simp_bits(got) != I.simp_bits(want):
+            import os as _os
+            if _os.environ.get("C07_DEBUG"):
+                g_, w_ = I.simp_bits(got), I.simp_bits(want)
+                print("DEBUG", len(g_), len(w_), [(i, a, b) for i, (a, b) in enumerate(zip(g_, w_)) if a != b][:4], st.labels[-4:], st.decisions[-4:])
             return f"received data ({len(got) // 8} octets) is not payload + {poc} pad octets"
         hdr_rx = kw.get("transmission_header", evs[1][1][0] if evs[1][1] else None)
         hp = hdr_rx.attrs.get("pad_octet_count") if isinstance(hdr_rx, AObj) else None
